@@ -497,6 +497,13 @@ def remove_tensor(expr: e.Expr, t_name: str) -> dict:
             if (idx_key := s.space_and_spin) not in used_indices:
                 used_indices[idx_key] = set()
             used_indices[idx_key].add(s.name)
+        # - the names of the target indices are not available either, even if
+        #   the index does not occur in the remaining term anymore, e.g., the
+        #   index of a previously removed occurence of the tensor
+        for idx_key, names in target_indices.items():
+            if idx_key not in used_indices:
+                used_indices[idx_key] = set()
+            used_indices[idx_key].update(names)
 
         # - check if the tensor is holding target indices.
         #   have to introduce a KroneckerDelta for each target index to avoid
